@@ -52,6 +52,7 @@ class Trace(object):
         self.fired = {}
         self.timeout_in_backend = False
         self.solver_sessions = []   # gen family: list of sub traces
+        self.intruders = []
         self.backend = None
 
     def digest(self):
@@ -290,6 +291,28 @@ def solver_session(tr, path, na, twopl, opts, ops, backend_cfg, clock,
                 clock.advance(kw.get('seconds', 10 ** idle_rng.uniform(-3, 3)))
                 log('idle', (clock.t,))
                 continue
+            if name == 'intruder':
+                # another Solver object, on another instance, constructed,
+                # solved and queried in between: objects must not share state
+                import instances
+                sub = Trace()
+                sub.events = tr.events
+                ipath = os.path.join(os.path.dirname(path),
+                                     'intruder%d.txt' % len(tr.intruders))
+                with open(ipath, 'w') as f:
+                    f.write(instances.render(kw['inst']))
+                tr.intruders.append(sub)
+                undo_b()      # the intruder talks to its own back end
+                try:
+                    solver_session(sub, ipath, kw['na'], kw['twopl'],
+                                   kw.get('opts', {}),
+                                   kw.get('ops', [['solve', {}],
+                                                  ['get_results']]),
+                                   kw.get('backend', {}), clock, log)
+                finally:
+                    undo_b = world.install_backend(be)
+                    world.install_clock(clock)
+                continue
             log('api.call', (name, kw))
             try:
                 if name == 'solve':
@@ -437,6 +460,8 @@ def run_gen(sc, prefer=None, xcheck=None, wall_cap=None, keep_sets=True):
                 mod.create_string_pref = csp_spy
                 patched.append(mod)
     try:
+        if sc.get('precreate_out') and sc.get('expect') != 'reject':
+            os.makedirs(outdir, exist_ok=True)
         a, b = sc['rng']
         random.seed(a)
         numpy.random.seed(b)
